@@ -69,10 +69,21 @@ pub struct SCase {
     /// None = the empty value of the Option flavour
     pub value: Option<SV>,
     pub option_flavour: bool,
+    /// 0 = the pointee is the generated SV; 1.. = a zero-sized / fixed pointee type instead
+    /// ((), unit struct, empty struct, [u8; 0], PhantomData, u64, (u8, ()))
+    #[serde(default)]
+    pub pointee: u8,
 }
 
+#[derive(Clone, Debug, PartialEq, DSerialize, Deserialize)]
+pub struct UnitS;
+#[derive(Clone, Debug, PartialEq, DSerialize, Deserialize)]
+pub struct EmptyS {}
+#[derive(Clone, Debug, PartialEq, DSerialize, Deserialize)]
+pub struct TupleZ(());
+
 pub fn case_strategy() -> impl Strategy<Value = SCase> {
-    (proptest::option::weighted(0.85, sv_strategy()), any::<bool>()).prop_map(|(value, option_flavour)| SCase { option_flavour: option_flavour || value.is_none(), value })
+    (proptest::option::weighted(0.85, sv_strategy()), any::<bool>(), prop_oneof![4 => Just(0u8), 1 => 1u8..9]).prop_map(|(value, option_flavour, pointee)| SCase { option_flavour: option_flavour || value.is_none(), value, pointee })
 }
 
 // ---- a Serializer that records the calls it receives --------------------------------------------
@@ -284,18 +295,54 @@ where
             return Err(format!("[{}] a freshly deserialized container's value has strong count {} (container + this handle = 2 expected)", name, n));
         }
     }
-    // (4) round trip preserves the value
-    if direct != stored {
-        return Err(format!("[{}] round trip changed the value: {:?} -> {:?}", name, stored, direct));
-    }
+    // (4) round trip: the container preserves exactly what the pointer itself preserves (JSON is
+    // lossy for a few shapes, e.g. Some(()) reads back as None: that is the format, not the
+    // container, so the reference is the pointer's own round trip `direct`, compared in (3));
+    // serializing the restored container gives what serializing the restored pointer gives
     let again = serde_json::to_string(&back).map_err(|e| e.to_string())?;
-    if again != jp {
-        return Err(format!("[{}] second serialization {} differs from the first {}", name, again, jp));
+    let again_direct = serde_json::to_string(&direct).map_err(|e| e.to_string())?;
+    if again != again_direct {
+        return Err(format!("[{}] second serialization of the container {} differs from that of the pointer {}", name, again, again_direct));
+    }
+    if direct == stored && *back.load() != stored {
+        return Err(format!("[{}] round trip changed the value: {:?} -> {:?}", name, stored, *back.load()));
+    }
+    Ok(())
+}
+
+fn run_fixed<V>(v: V, none: bool, option_flavour: bool, what: &str) -> Result<(), String>
+where
+    V: Serialize + for<'de> Deserialize<'de> + PartialEq + std::fmt::Debug + Clone,
+{
+    if option_flavour {
+        let stored: Option<Arc<V>> = if none { None } else { Some(Arc::new(v)) };
+        let sc = |k: &Option<Arc<V>>| k.as_ref().map(Arc::strong_count);
+        check_one::<Option<Arc<V>>, DefaultStrategy>(stored.clone(), &format!("ArcSwapOption<{}>/default", what), &sc)?;
+        check_one::<Option<Arc<V>>, FillFastSlots>(stored.clone(), &format!("ArcSwapOption<{}>/fallback-only", what), &sc)?;
+        check_one::<Option<Arc<V>>, RwLock<()>>(stored, &format!("ArcSwapOption<{}>/rwlock", what), &sc)?;
+    } else {
+        let stored: Arc<V> = Arc::new(v);
+        let sc = |k: &Arc<V>| Some(Arc::strong_count(k));
+        check_one::<Arc<V>, DefaultStrategy>(stored.clone(), &format!("ArcSwap<{}>/default", what), &sc)?;
+        check_one::<Arc<V>, FillFastSlots>(stored.clone(), &format!("ArcSwap<{}>/fallback-only", what), &sc)?;
+        check_one::<Arc<V>, RwLock<()>>(stored, &format!("ArcSwap<{}>/rwlock", what), &sc)?;
     }
     Ok(())
 }
 
 pub fn run_case(c: &SCase) -> Result<(), String> {
+    let none = c.value.is_none();
+    match c.pointee {
+        0 => {}
+        1 => return run_fixed((), none, c.option_flavour, "()"),
+        2 => return run_fixed(UnitS, none, c.option_flavour, "UnitS"),
+        3 => return run_fixed(EmptyS {}, none, c.option_flavour, "EmptyS"),
+        4 => return run_fixed([0u8; 0], none, c.option_flavour, "[u8; 0]"),
+        5 => return run_fixed(std::marker::PhantomData::<u32>, none, c.option_flavour, "PhantomData"),
+        6 => return run_fixed(TupleZ(()), none, c.option_flavour, "TupleZ"),
+        7 => return run_fixed(0x1122334455667788u64, none, c.option_flavour, "u64"),
+        _ => return run_fixed((7u8, ()), none, c.option_flavour, "(u8, ())"),
+    }
     if c.option_flavour {
         let stored: Option<Arc<SV>> = c.value.clone().map(Arc::new);
         let sc = |k: &Option<Arc<SV>>| k.as_ref().map(Arc::strong_count);
@@ -313,6 +360,9 @@ pub fn run_case(c: &SCase) -> Result<(), String> {
 }
 
 pub fn nontrivial(c: &SCase) -> bool {
+    if c.pointee != 0 {
+        return true;
+    }
     match &c.value {
         None => true,
         Some(v) => matches!(v, SV::Opt(_) | SV::Seq(_) | SV::Map(_) | SV::Rec(_) | SV::Str(_) | SV::Struct { .. } | SV::Pair(..)),
